@@ -7,6 +7,8 @@
 #include <stdlib.h>
 #include <string.h>
 #include <unistd.h>
+#include <sys/time.h>
+static void touch(const char *p) { FILE *t = fopen(p, "a"); if (t) fclose(t); utimes(p, NULL); }
 static void hex(FILE *f, const char *s) {
   if (!*s) { fputs("-", f); return; }
   for (; *s; s++) fprintf(f, "%02x", (unsigned char)*s);
@@ -32,9 +34,13 @@ int main(int argc, char **argv) {
   }
   fputc('\n', f);
   if (out) fclose(f);
-  if (getenv("ARGVREC_TOUCH")) {
+  if (getenv("ARGVREC_TOUCH") && getenv("ARGVREC_TOUCH")[0]) {
+    /* ar-style invocation: ar rcs libx.a objs... */
+    if (argc > 2 && argv[1][0] != '-' && strlen(argv[2]) > 2 && !strcmp(argv[2] + strlen(argv[2]) - 2, ".a")) {
+      touch(argv[2]);
+    }
     for (int i = 1; i + 1 < argc; i++)
-      if (!strcmp(argv[i], "-o") || !strcmp(argv[i], "-MF")) { FILE *t = fopen(argv[i + 1], "a"); if (t) fclose(t); }
+      if (!strcmp(argv[i], "-o") || !strcmp(argv[i], "-MF")) touch(argv[i + 1]);
   }
   return 0;
 }
